@@ -96,6 +96,10 @@ def cases(tier, seed):
     add(kind="riks_pm", load="stay_open", spring="kelvin_voigt_u0", stiff="stiff", la_arc0=1e-2, iter_goal=4, max_load_steps=60, places=P3)
     add(kind="riks_pm", load="stay_open", spring="kelvin_voigt_u0", stiff="stiff", la_arc0=1e-2, iter_goal=3, max_load_steps=60, places=P3, no_contact=True)
     add(kind="riks_pm", load="big", spring="kelvin_voigt_u0", stiff="soft", la_arc0=1e-2, iter_goal=3, max_load_steps=200, places=P3, no_contact=True)
+    # solver objects used a second time / options changed between construction and solve (seeded C23-l, C23-m)
+    add(kind="riks_pm", load="big", spring="force", stiff="soft", la_arc0=1e-2, iter_goal=3, max_load_steps=6, places=P3, no_contact=True, second_solve=True)
+    add(kind="riks_pm", load="big", spring="force", stiff="soft", la_arc0=1e-2, iter_goal=3, max_load_steps=60, places=P3, no_contact=True, tighten=True)
+    add(kind="riks_truss", la_arc0=1e-3, iter_goal=4, max_load_steps=5, places=["I"], second_solve=True)
     # --- cantilevers, Newton
     nels = (1, 2, 4) if thorough else (2,)
     for nel in nels:
@@ -244,8 +248,20 @@ def _solve(case, system):
     with capture() as rec:
         try:
             if riks:
-                out["sol"] = Riks(system, la_arc0=case["la_arc0"], la_arc_span=np.array(span), iter_goal=case["iter_goal"], options=opts,
-                                  max_load_steps=case["max_load_steps"]).solve()
+                use = opts
+                if case.get("tighten"):
+                    # ONE options object shared between construction and solve: loose while the solver is built, tight afterwards
+                    import dataclasses
+
+                    use = dataclasses.replace(opts, newton_atol=1e-4, newton_rtol=1e-4)
+                rk = Riks(system, la_arc0=case["la_arc0"], la_arc_span=np.array(span), iter_goal=case["iter_goal"], options=use,
+                          max_load_steps=case["max_load_steps"])
+                if case.get("tighten"):
+                    use.newton_atol, use.newton_rtol = opts.newton_atol, opts.newton_rtol
+                out["sol"] = rk.solve()
+                if case.get("second_solve"):
+                    # the same solver object used again (e.g. after the first call stopped at max_load_steps): what is returned are equilibria
+                    out["sol"] = rk.solve()
             else:
                 out["sol"] = Newton(system, n_load_steps=case["nsteps"], verbose=bool(case.get("verbose", False)), options=opts).solve()
         except (AssertionError, RuntimeError) as e:       # a loud stop; anything else is a crash and is left to the runner
